@@ -59,3 +59,99 @@ def case_row_moves(ctx, s: Subject):
         ctx.case(f"frame.{name}", {**s.desc(), "labels": labels, "op": name}, real, None,
                  {"ok": {"pairs": expect(pos), "cls": "NestedFrame"}}, hyp=s.hyp, features=s.features + (name,),
                  nontrivial=s.nontrivial())
+
+
+# ---- C06 at the frame level: nf["nest.field"] = value -----------------------------------------------
+
+def lens_of_rows(rows):
+    return [0 if r is None else (len(r[0][1]) if r else 0) for r in rows]
+
+
+def set_field_rows(rows, f, lists):
+    out = []
+    for r, l in zip(rows, lists):
+        if r is None:
+            out.append(None)
+            continue
+        r2 = [[n, c] for n, c in r]
+        if any(n == f for n, _ in r2):
+            r2 = [[n, (l if n == f else c)] for n, c in r2]
+        else:
+            r2.append([f, l])
+        out.append(r2)
+    return out
+
+
+def case_frame_field_assign(ctx, s: Subject):
+    from .ops_array import rand_field
+    from .common import TYPES, dec_cell, weak
+    rng = ctx.rng
+    rows = s.content["rows"]
+    n = len(rows)
+    labels = gen.rand_labels(rng, n)
+    other = Subject(ctx, nrows=n, allow_hidden=False)
+    nf = mk_frame(s, labels)
+    nf["x"] = np.arange(n, dtype=np.float64) * 0.5
+    nf["other"] = pd.Series(other.fresh_ext(), index=nf.index, name="other")
+    cols_before = list(nf.columns)
+    lens = lens_of_rows(rows)
+    total = sum(lens)
+    f = rand_field(rng, s.ty)
+    t = rng.choice(gen.TYNAMES)
+    form = rng.choice(["flat_array", "flat_series", "base_series", "scalar", "flat_list"])
+    if form == "scalar" and t.startswith("timestamp"):
+        form = "flat_array"
+    if form in ("flat_array", "flat_series", "flat_list"):
+        cells = [gen.rand_cell(rng, t) for _ in range(total)]
+        arr = gen.flat_array(cells, t)
+        if form == "flat_series":
+            value = pd.Series(arr, dtype=pd.ArrowDtype(TYPES[t]),
+                              index=pd.Index([l for l, k in zip(labels, lens) for _ in range(k)], dtype=nf.index.dtype))
+        elif form == "flat_list":
+            value = arr.to_pylist() if not t.startswith("timestamp") else arr
+        else:
+            value = arr
+        lists, k = [], 0
+        for l in lens:
+            lists.append(cells[k:k + l])
+            k += l
+    elif form == "base_series":
+        cells = [gen.rand_cell(rng, t) for _ in range(n)]
+        value = pd.Series(gen.flat_array(cells, t), dtype=pd.ArrowDtype(TYPES[t]), index=nf.index)
+        lists = [[c] * l for c, l in zip(cells, lens)]
+    else:
+        cell = gen.rand_cell(rng, t, p_null=0)
+        value = dec_cell(cell, t)
+        lists = [[cell] * l for l in lens]
+    flat_index = [export.label(l) for l, k in zip(labels, lens) for _ in range(k)]
+    hyp = dict(s.hyp)
+    hyp["flat_eq_index"] = bool(form == "flat_series" and flat_index == [export.label(l) for l in nf.index.tolist()]
+                                and any(l != 1 for l in lens))
+    exp_rows = weak_rows(set_field_rows(rows, f, lists))
+    before_other = weak_rows(export.rows_view(nf["other"].array))
+
+    def run():
+        nf2 = nf.copy()
+        nf2[f"nest.{f}"] = value
+        return {
+            "rows": weak_rows(export.rows_view(nf2["nest"].array)),
+            "columns": list(nf2.columns), "index": export.labels(nf2.index),
+            "id": [int(v) for v in nf2["id"]], "x": [float(v) for v in nf2["x"]],
+            "other": weak_rows(export.rows_view(nf2["other"].array)),
+            "cls": type(nf2).__name__,
+            "field_ty": dict(map(tuple, export.dtype_ty(nf2["nest"].dtype))).get(f),
+            "isna": [bool(b) for b in nf2["nest"].isna()],
+            "orig_unchanged": weak_rows(export.rows_view(nf["nest"].array)) == weak_rows(rows),
+        }
+    real = call_real(run)
+    spec = {"ok": {"rows": exp_rows, "columns": cols_before, "index": [export.label(l) for l in nf.index.tolist()],
+                   "id": list(range(n)), "x": [i * 0.5 for i in range(n)], "other": before_other, "cls": "NestedFrame",
+                   "field_ty": t, "isna": [r is None for r in rows], "orig_unchanged": True}}
+    if form == "flat_list" and "ok" in real:
+        spec["ok"]["field_ty"] = real["ok"]["field_ty"]   # element type of a python list is pyarrow's inference
+    if form == "scalar" and "ok" in real:
+        spec["ok"]["field_ty"] = real["ok"]["field_ty"]
+    ctx.case(f"frame.setitem_field[{form}]", {**s.desc(), "labels": labels, "field": f, "ty": t, "form": form,
+                                               "lists": lists}, real, None, spec, hyp=hyp,
+             features=s.features + (form, "newfield" if f not in [x for x, _ in s.ty] else "existing"),
+             nontrivial=s.nontrivial())
